@@ -6,6 +6,7 @@ import (
 	"encoding/json"
 	"fmt"
 	"math"
+	"math/big"
 	"os"
 	"strconv"
 	"time"
@@ -49,8 +50,9 @@ func cellOf(j jcell) *table.Cell {
 		}
 		return &table.Cell{P: p}
 	case "t":
-		ns, _ := strconv.ParseInt(j.Ns, 10, 64)
-		t := time.Unix(0, ns).In(time.FixedZone("", j.Off))
+		ns, _ := new(big.Int).SetString(j.Ns, 10)
+		sec, nsec := new(big.Int).DivMod(ns, big.NewInt(1000000000), new(big.Int))
+		t := time.Unix(sec.Int64(), nsec.Int64()).In(time.FixedZone("", j.Off))
 		if j.Off == 0 {
 			t = t.UTC()
 		}
